@@ -110,12 +110,12 @@ def catalogue (hostile_dpid=0x21):
 # ---- reference framing -------------------------------------------------------------------
 def frame (buf):
   """Split by declared header length.  Returns (units, tail, why) where units are (offset, bytes) and
-  why is 'empty' | 'incomplete' (fewer bytes than declared / than a header) | 'unframeable' (declared
+  why is 'empty' | 'incomplete' (fewer bytes than declared / than an 8-byte header) | 'unframeable' (declared
   length < 8: no receiver can find the next message)."""
   out = []; off = 0
   while True:
     if off == len(buf): return out, b"", "empty"
-    if len(buf) - off < 4: return out, buf[off:], "incomplete"
+    if len(buf) - off < 8: return out, buf[off:], "incomplete"
     ln = struct.unpack_from("!H", buf, off + 2)[0]
     if ln < 8: return out, buf[off:], "unframeable"
     if off + ln > len(buf): return out, buf[off:], "incomplete"
@@ -125,100 +125,101 @@ def frame (buf):
 # ---- structural validator -------------------------------------------------------------------
 _ACT_LEN = {0: 8, 1: 8, 2: 8, 3: 8, 4: 16, 5: 16, 6: 8, 7: 8, 8: 8, 9: 8, 10: 8, 11: 16}
 
-def _actions_ok (b):
-  """'ok' | 'bad' | 'free' for an action list occupying exactly b."""
-  o = 0; res = "ok"
+def _actions (b):
+  """('ok'|'bad'|'free', reason) for an action list occupying exactly b."""
+  o = 0; res = ("ok", "")
   while o < len(b):
-    if len(b) - o < 4: return "bad"
+    if len(b) - o < 4: return ("bad", "action.len")
     t, l = struct.unpack_from("!HH", b, o)
-    if l < 8 or l % 8 or o + l > len(b): return "bad"
+    if l < 8 or l % 8 or o + l > len(b): return ("bad", "action.len")
     if t in _ACT_LEN:
-      if l != _ACT_LEN[t]: return "bad"
+      if l != _ACT_LEN[t]: return ("bad", "action.len")
     elif t == 0xffff: pass
-    else: res = "free"                        # unknown action type: the switch answers BAD_ACTION; not a framing matter
+    else: res = ("free", "unknown-action")     # the switch answers BAD_ACTION; not a framing matter
     o += l
   return res
 
-def _queues_ok (b):
+def _queues (b):
   o = 0
   while o < len(b):
-    if len(b) - o < 8: return "bad"
+    if len(b) - o < 8: return ("bad", "queue.len")
     qid, l = struct.unpack_from("!LH", b, o)
-    if l < 8 or o + l > len(b): return "bad"
+    if l < 8 or o + l > len(b): return ("bad", "queue.len")
     p = o + 8; end = o + l
     while p < end:
-      if end - p < 8: return "bad"
+      if end - p < 8: return ("bad", "prop.len")
       t, pl = struct.unpack_from("!HH", b, p)
-      if pl < 8 or p + pl > end: return "bad"
-      if t == OFPQT_MIN_RATE and pl != 16: return "bad"
+      if pl < 8 or p + pl > end: return ("bad", "prop.len")
+      if t == OFPQT_MIN_RATE and pl != 16: return ("bad", "prop.len")
       p += pl
     o += l
-  return "ok"
+  return ("ok", "")
 
 _FIXED = {W.FEATURES_REQUEST: 8, W.GET_CONFIG_REQUEST: 8, W.BARRIER_REQUEST: 8, W.BARRIER_REPLY: 8,
           W.GET_CONFIG_REPLY: 12, W.SET_CONFIG: 12, W.FLOW_REMOVED: 88, W.PORT_STATUS: 64, W.PORT_MOD: 32,
           W.QUEUE_GET_CONFIG_REQUEST: 12}
-_MIN = {W.HELLO: 8, W.ERROR: 12, W.ECHO_REQUEST: 8, W.ECHO_REPLY: 8, W.VENDOR: 12, W.PACKET_IN: 18}
+_MIN = {W.HELLO: 8, W.ERROR: 12, W.ECHO_REQUEST: 8, W.ECHO_REPLY: 8, W.VENDOR: 12, W.PACKET_IN: 18,
+        W.FEATURES_REPLY: 32, W.PACKET_OUT: 16, W.FLOW_MOD: 72, W.STATS_REQUEST: 12, W.STATS_REPLY: 12,
+        W.QUEUE_GET_CONFIG_REPLY: 16}
 _SREQ = {W.OFPST_DESC: 0, W.OFPST_FLOW: 44, W.OFPST_AGGREGATE: 44, W.OFPST_TABLE: 0, W.OFPST_PORT: 8, W.OFPST_QUEUE: 8}
+_SREP_ENTRY = {W.OFPST_TABLE: 64, W.OFPST_PORT: 104, W.OFPST_QUEUE: 32}
 
-def wellformed (u):
-  """u: one framed unit (len(u) == declared length >= 8).  Returns 'ok' (a structurally valid
-  OpenFlow 1.0 message), 'bad' (malformed: must be answered with an error or cost the connection),
-  or 'free' (the specification / property statement does not say)."""
+def classify (u):
+  """u: one framed unit (len(u) == declared length >= 8).  Returns (verdict, reason): verdict 'ok'
+  (a structurally valid OpenFlow 1.0 message), 'bad' (malformed: must be answered with an error or
+  cost the connection; reason names the violated rule) or 'free' (the specification / property
+  statement does not say)."""
   ver, typ, ln, xid = W.parse_hdr(u)
   assert ln == len(u) and ln >= 8
-  if typ == W.HELLO and ver != W.VERSION: return "free"        # version negotiation
-  if ver != W.VERSION: return "bad"
-  if typ > W.QUEUE_GET_CONFIG_REPLY: return "bad"
+  if typ == W.HELLO and ver != W.VERSION: return ("free", "hello-version")       # version negotiation
+  if ver != W.VERSION: return ("bad", "version")
+  if typ > W.QUEUE_GET_CONFIG_REPLY: return ("bad", "unknown-type")
   b = u[8:]
-  if typ in _FIXED: return "ok" if ln == _FIXED[typ] else "bad"
-  if typ in _MIN: return "ok" if ln >= _MIN[typ] else "bad"
+  if typ in _FIXED: return ("ok", "") if ln == _FIXED[typ] else ("bad", "length!=fixed")
+  if ln < _MIN[typ]: return ("bad", "length<min")
   if typ == W.FEATURES_REPLY:
-    return "ok" if ln >= 32 and (ln - 32) % 48 == 0 else "bad"
+    return ("ok", "") if (ln - 32) % 48 == 0 else ("bad", "length%entry")
   if typ == W.PACKET_OUT:
-    if ln < 16: return "bad"
     al = struct.unpack_from("!H", b, 6)[0]
-    if 16 + al > ln: return "bad"
-    return _actions_ok(u[16:16+al])
+    if 16 + al > ln: return ("bad", "actions_len>body")
+    return _actions(u[16:16+al])
   if typ == W.FLOW_MOD:
-    if ln < 72: return "bad"
-    return _actions_ok(u[72:])
+    return _actions(u[72:])
   if typ == W.STATS_REQUEST:
-    if ln < 12: return "bad"
     st = struct.unpack_from("!H", b)[0]
-    if st == W.OFPST_VENDOR: return "ok" if ln >= 16 else "bad"
-    if st not in _SREQ: return "free"
-    return "ok" if ln == 12 + _SREQ[st] else "bad"
+    if st == W.OFPST_VENDOR: return ("ok", "") if ln >= 16 else ("bad", "stats-body-length")
+    if st not in _SREQ: return ("free", "unknown-stats-type")
+    return ("ok", "") if ln == 12 + _SREQ[st] else ("bad", "stats-body-length")
   if typ == W.STATS_REPLY:
-    if ln < 12: return "bad"
     st = struct.unpack_from("!H", b)[0]; body = b[4:]
-    if st == W.OFPST_DESC: return "ok" if len(body) == 1056 else "bad"
-    if st == W.OFPST_AGGREGATE: return "ok" if len(body) == 24 else "bad"
-    if st == W.OFPST_TABLE: return "ok" if len(body) % 64 == 0 else "bad"
-    if st == W.OFPST_PORT: return "ok" if len(body) % 104 == 0 else "bad"
-    if st == W.OFPST_QUEUE: return "ok" if len(body) % 32 == 0 else "bad"
-    if st == W.OFPST_VENDOR: return "ok" if len(body) >= 4 else "bad"
+    if st == W.OFPST_DESC: return ("ok", "") if len(body) == 1056 else ("bad", "stats-body-length")
+    if st == W.OFPST_AGGREGATE: return ("ok", "") if len(body) == 24 else ("bad", "stats-body-length")
+    if st in _SREP_ENTRY: return ("ok", "") if len(body) % _SREP_ENTRY[st] == 0 else ("bad", "length%entry")
+    if st == W.OFPST_VENDOR: return ("ok", "") if len(body) >= 4 else ("bad", "stats-body-length")
     if st == W.OFPST_FLOW:
-      o = 0; res = "ok"
+      o = 0; res = ("ok", "")
       while o < len(body):
-        if len(body) - o < 88: return "bad"
+        if len(body) - o < 88: return ("bad", "entry.length")
         l = struct.unpack_from("!H", body, o)[0]
-        if l < 88 or o + l > len(body): return "bad"
-        r = _actions_ok(body[o+88:o+l])
-        if r == "bad": return "bad"
-        if r == "free": res = "free"
+        if l < 88 or o + l > len(body): return ("bad", "entry.length")
+        r = _actions(body[o+88:o+l])
+        if r[0] == "bad": return r
+        if r[0] == "free": res = r
         o += l
       return res
-    return "free"
+    return ("free", "unknown-stats-type")
   if typ == W.QUEUE_GET_CONFIG_REPLY:
-    if ln < 16: return "bad"
-    return _queues_ok(u[16:])
-  return "free"
+    return _queues(u[16:])
+  return ("ok", "")        # HELLO (a body is allowed), ERROR, ECHO_*, VENDOR, PACKET_IN at or above their minimum
+
+
+def wellformed (u):
+  return classify(u)[0]
 
 
 def selftest ():
   for i in catalogue():
     units, tail, why = frame(i.data + i.data)
     assert [u for _, u in units] == [i.data, i.data] and why == "empty", i.name
-    assert wellformed(i.data) == "ok", (i.name, wellformed(i.data))
+    assert classify(i.data) == ("ok", ""), (i.name, classify(i.data))
   return True
